@@ -176,6 +176,21 @@ impl Property for C05 {
                         Err(_) => ctx.stats.probe("decoder_panicked_left_to_C09"),
                     }
                 }
+                // The string API decodes and recovers in one call. When the FIRST line is a share that no longer
+                // decodes, that is an alteration of the share that supplies the ciphertext: the call must not
+                // quietly go on with the next line as supplier.
+                if !bytes.is_empty() && matches!(guarded(|| Share::from_bytes(&bytes[0])), Ok(None)) && decoded.len() + 1 == bytes.len() {
+                    use base64::{engine::Engine as _, prelude::BASE64_STANDARD};
+                    let joined = bytes.iter().map(|b| BASE64_STANDARD.encode(b)).collect::<Vec<_>>().join("\n");
+                    if let Ok(Some(_)) = guarded(|| star_wasm::group_shares(&joined, "e")) {
+                        return Err(Violation::new(
+                            "c05.altered_first_accepted",
+                            "undecodable_first_skipped",
+                            format!("group_shares returned a key for a collection whose first share was altered ({}) so that it no longer decodes: the next share silently supplied the ciphertext", applied),
+                        ));
+                    }
+                    ctx.stats.probe("undecodable_first_share_refused_by_string_api");
+                }
                 if decoded.is_empty() {
                     continue;
                 }
